@@ -53,10 +53,12 @@ def compute_intersection(edgeA, edgeB, f_common_normal):
     xiBs = jnp.hstack((xiBs1, jnp.arange(2)))
     gs = jnp.hstack((gs1, gs2))
 
-    xiAgood = jax.vmap(lambda xia, xib: jnp.where((xia >= 0.0) & (xia <= 1.0) & (xib >= 0.0) & (xib <= 1.0), xia, jnp.nan))(xiAs, xiBs)
+    # accept projections that miss an end point by rounding only (node-on-node pairs), then clip
+    tol = 1e-10
+    xiAgood = jax.vmap(lambda xia, xib: jnp.where((xia >= -tol) & (xia <= 1.0+tol) & (xib >= -tol) & (xib <= 1.0+tol), xia, jnp.nan))(xiAs, xiBs)
     argsMinMax = jnp.array([jnp.nanargmin(xiAgood), jnp.nanargmax(xiAgood)])
 
-    return xiAs[argsMinMax], xiBs[argsMinMax], gs[argsMinMax]
+    return jnp.clip(xiAs[argsMinMax], 0.0, 1.0), jnp.clip(xiBs[argsMinMax], 0.0, 1.0), gs[argsMinMax]
 
 
 def integrate_with_active_mortar(xiA, xiB, g, lengthA, lengthB, func_of_xiA_xiB_g, relativeSmoothingSize):
